@@ -10,7 +10,7 @@ THEOREMS = ['C10_net_writen', 'C10_literal_replies', 'C10_literal_checker_sound'
             'C10_multiline_writer', 'C10_sites_multiline', 'C10_reply_sequences', 'C10_dnstxt_clean', 'C10_nomail', 'C10_unpatched_refuted', 'C10_hole_sources']
 ENGINES = [dict(name='netio', c_sources=['netio_h.c'], extract='Extract/Extract_netio.v', driver='netio_driver.ml',
                 accepts=lambda c: c.startswith('aa ')),
-           dict(name='replysites', c_sources=['replysites_h.c', 'replysites_real.c', 'replysites_filters.c', 'replysites_owfat.c', 'replysites_tls.c', 'replysites_data.c'],
+           dict(name='replysites', c_sources=['replysites_h.c', 'replysites_real.c', 'replysites_filters.c', 'replysites_owfat.c', 'replysites_tls.c', 'replysites_data.c', 'replysites_main.c', 'replysites_auth.c'],
                 extract='Extract/Extract_replysites.v', driver='replysites_driver.ml', libs=('-lowfat', '-lssl', '-lcrypto'),
                 accepts=lambda c: c[:3] in ('c1 ', 'c2 ', 'c3 ', 'c4 ', 'c5 ', 'c6 '))]
 RULE = ('engine netio: cases = net_writen argument vectors: s[0] from the reply templates found in qsmtpd/**, 1-4 embedded strings of '
@@ -198,7 +198,7 @@ def _site_case(rng, func, els, line=0):
         param = rng.choice([0, 1, 2])
         cap = {0: 470, 1: 480, 2: 950}[param]       # MAIL FROM lines above 510 (+26 with SIZE, +500 with AUTH) octets are refused
         vals.append(_local(rng, max(1, _len(rng, cap))) + b'@' + _domain(rng, 20))
-    elif func in ('smtp_helo', 'smtp_quit'):
+    elif func in ('smtp_helo', 'smtp_quit', 'smtploop'):
         vals.append(_domain(rng, 255))
     elif func == 'smtp_ehlo':
         if any(l == b'250-CHUNKING\r\n' for l in lits):
